@@ -117,5 +117,19 @@ func PlayGrid(tier string) []*Config {
 	}
 	add(cfg([]int64{3, 5, 2, 6, 4, 3}, 1, 1, 2, 0, false, 4, "no", "sv:2,0,2,1,1,0", 2, 0, "standard", "classes"))
 	add(cfg([]int64{2, 2, 2, 2, 2, 2, 2, 2, 2}, 0, 1, 2, 0, false, 0, "no", "royal52", 2, 0, "standard", "classes"))
+	// deeper stacks
+	add(cfg([]int64{15, 15, 15}, 0, 1, 2, 0, false, 0, "no", "sv:1,1,0", 2, 0, "standard", "all"))
+	add(cfg([]int64{20, 13, 8}, 1, 2, 4, 0, false, 2, "no", "sv:0,2,2", 2, 0, "standard", "all"))
+	add(cfg([]int64{14, 9, 14}, 0, 1, 2, 0, true, 1, "pot", "sv:3,3,3", 2, 0, "standard", "all"))
+	add(cfg([]int64{10, 10, 10, 10}, 0, 1, 2, 0, false, 0, "no", "sv:1,0,1,2", 2, 0, "standard", "classes"))
+	add(cfg([]int64{12, 7, 9, 5}, 1, 1, 2, 0, false, 3, "no", "sv:2,2,0,2", 2, 0, "standard", "classes"))
+	add(cfg([]int64{8, 8, 8, 8}, 1, 1, 2, 0, false, 0, "pot", "sv:1,0,1,2", 2, 0, "standard", "all"))
+	add(cfg([]int64{6, 6, 6, 6, 6}, 0, 1, 2, 0, false, 0, "no", "sv:1,0,1,1,0", 2, 0, "standard", "classes"))
+	add(cfg([]int64{8, 5, 6, 7, 4}, 1, 1, 2, 0, true, 2, "no", "sv:0,3,3,0,3", 2, 0, "standard", "classes"))
+	add(cfg([]int64{5, 5, 5, 5, 5, 5}, 0, 1, 2, 3, false, 5, "no", "sv:1,0,1,1,0,2", 2, 0, "standard", "classes"))
+	add(cfg([]int64{4, 4, 4, 4, 4, 4}, 0, 1, 2, 0, false, 0, "pot", "royal52", 2, 0, "standard", "classes"))
+	add(cfg([]int64{3, 2, 3, 2, 3, 2, 3, 2, 3}, 0, 1, 2, 0, false, 4, "no", "sv:1,0,1,0,1,0,2,0,2", 2, 0, "standard", "classes"))
+	add(cfg([]int64{7, 7, 7}, 0, 1, 2, 0, false, 0, "no", "f36", 2, 0, "short", "all"))
+	add(cfg([]int64{6, 6, 6, 6}, 0, 1, 2, 0, false, 1, "no", "sv:4,0,4,1", 4, 2, "standard", "classes"))
 	return out
 }
